@@ -285,12 +285,6 @@ pub proof fn lemma_handle_facts(sp: Scalar, op: Operation, off: IntermediateOffs
 
 impl StackPointerOffsetAnalysis {
 
-//@ fn impl StackPointerOffsetAnalysis :: fn is_translation
-//@ spec
-    ensures /*@spec*/ r == is_transl(self.stack_pointer, *expression),
-    decreases *expression,
-//@ end
-
 //@ fn impl StackPointerOffsetAnalysis :: fn handle_operation
 //@ spec
     requires io_wf(stack_pointer_offset), op_sane(*operation),
